@@ -140,6 +140,8 @@ static int classify(const SessionSpec &ss, const std::vector<ParamSpec> &params)
     };
     bool any_unknown = false;
     for (const StdSpec &st : ss.stds) for (int pi : st.params) if (!params[(size_t)pi].known()) any_unknown = true;
+    // a correlated parameter brings an unknown and a soft constraint: neither the counting nor the accuracy claim is made
+    for (const StdSpec &st : ss.stds) for (int pi : st.params) if (params[(size_t)pi].corr) return 0;
     if (ue && !any_unknown) {
 	// one independent linear system per driven column
 	for (int col = 0; col < P; ++col) {
@@ -498,6 +500,44 @@ static void run_op(CalWorld &w, const Op &op, const Plan &plan)
 	w.params.push_back(lp);
 	return;
     }
+    if (k == "mkcorr") {
+	// an unknown parameter correlated with another one: i[0] the other parameter, i[1] number of sigma points,
+	// d = {first and last sigma frequency, sigma, true deviation from the other parameter (re, im)}
+	ParamSpec g;
+	int gh = handle_of(w, op.I(0), &g);
+	int gi = resolve_param(w, op.I(0));
+	bool other_live = gi < 0 || w.params[(size_t)gi].live;
+	int n = (int)std::max<long>(1, std::min<long>(op.I(1), 16));
+	std::vector<double> fv((size_t)n), sv((size_t)n, op.D(2, 0.01));
+	for (int q = 0; q < n; ++q) fv[(size_t)q] = n == 1 ? op.D(0, 1e9) : op.D(0, 1e9) + (op.D(1, 2e9) - op.D(0, 1e9)) * q / (n - 1);
+	if (n > 1) fv[(size_t)n - 1] = op.D(1, 2e9);
+	LiveParam lp;
+	lp.spec.kind = 3; lp.spec.corr = true; lp.spec.corr_other = gi;
+	lp.spec.guess = g.kind == 3 ? g.guess : param_truth(g, g.kind == 2 ? g.kf[0] : 1e9);
+	lp.spec.value = lp.spec.guess + zc(op.D(3, 0), op.D(4, 0));
+	int h;
+	{
+	    LIB_RETRY(c, &op, "vnacal_make_correlated_parameter", u_err, h < 0, h = vnacal_make_correlated_parameter(w.vcp, gh, n == 1 && op.I(2) ? nullptr : fv.data(), n, sv.data()); CAPTURE_CB);
+	    if (usage_failure(h < 0, "vnacal_make_correlated_parameter", true)) {
+		// (refused by the manual's rule: a sigma vector disjoint from the frequency range of a vector parameter at the end of the chain)
+		bool disjoint = n > 1 && !g.kf.empty() && (fv.back() < g.kf.front() || fv.front() > g.kf.back());
+		if (!c.violated && other_live && !disjoint) c.violate("model", "mkcorr:rc", "vnacal_make_correlated_parameter refused a live parameter and an ascending sigma vector");
+		else if (disjoint) c.count("probe.correlated_disjoint_refused");
+		return;
+	    }
+	}
+	if (!other_live) { c.violate("model", "mkcorr:rc", "vnacal_make_correlated_parameter accepted a deleted handle as the other parameter"); return; }
+	lp.handle = h; lp.live = true;
+	note_new_handle(w, h);
+	for (auto &o : w.params) if (o.live && o.handle == h) { c.violate("model", "mkcorr:unique", strf("new handle %d equals a live handle", h)); return; }
+	// permitted frequency range: that of the vector parameter at the end of the chain (if there is one), cut down to that of the
+	// sigma vector (if it has more than one point); the latter restricts this parameter only, not one that uses it as initial guess
+	if (!g.kf.empty()) lp.spec.kf = {g.kf.front(), g.kf.back()};
+	if (n > 1) lp.spec.sigma_range = {fv.front(), fv.back()};
+	c.count("probe.correlated_parameter_created");
+	w.params.push_back(lp);
+	return;
+    }
     if (k == "delparam") {
 	int pi = resolve_param(w, op.I(0));
 	int h = pi < 0 ? (int)(((-op.I(0) - 1) % 3 + 3) % 3) : w.params[(size_t)pi].handle;
@@ -622,7 +662,11 @@ static void run_op(CalWorld &w, const Op &op, const Plan &plan)
 	int n = mode == 0 ? 1 : mode == 1 ? F : 3;
 	std::vector<double> fv, nf, tr;
 	double lo = s.spec.fv.front(), hi = s.spec.fv.back();
-	for (int q = 0; q < n; ++q) { fv.push_back(lo * 0.9 + (hi * 1.1 - lo * 0.9) * q / std::max(1, n - 1)); nf.push_back(1e-7 * (1 + q)); tr.push_back(1e-7); }
+	// the noise vectors' own frequencies cover the calibration band, or miss it at one end by well over five percent (then the call has to be refused)
+	int miss = mode == 2 ? (int)(op.I(3) % 3) : 0;	// 0 covers, 1 misses the low end, 2 misses the high end
+	double vlo = miss == 1 ? lo * 1.12 : lo * 0.9, vhi = miss == 2 ? hi * 0.88 : hi * 1.1;
+	if (vhi <= vlo) { if (miss == 1) vhi = vlo * 1.3; else vlo = vhi * 0.7; }
+	for (int q = 0; q < n; ++q) { fv.push_back(vlo + (vhi - vlo) * q / std::max(1, n - 1)); nf.push_back(1e-7 * (1 + q)); tr.push_back(1e-7); }
 	bool with_tr = op.I(2) % 2 != 0;
 	const double *pf = mode == 2 ? fv.data() : nullptr, *pn = mode == 3 ? nullptr : nf.data(), *pt = mode == 3 || !with_tr ? nullptr : tr.data();
 	int rc, e;
@@ -631,11 +675,13 @@ static void run_op(CalWorld &w, const Op &op, const Plan &plan)
 	if (c.violated) return;
 	bool sixteen = world_class_of(s.spec.type) == W16;
 	if (rc != 0) {
+	    if (miss && s.fv_set) { if (e != EINVAL) c.violate("model", "merror:errno", strf("set_m_error refused with errno %s", errno_name(e))); else c.count("probe.merror_range_refused"); return; }
 	    if (!s.fv_set || sixteen) { if (e != EINVAL) c.violate("model", "merror:errno", strf("set_m_error refused with errno %s", errno_name(e))); else c.count("probe.merror_refused"); return; }
 	    c.violate("model", "merror:rc", strf("vnacal_new_set_m_error refused valid arguments (errno %s)", errno_name(e)));
 	    return;
 	}
 	if (!s.fv_set && mode != 3) { c.violate("model", "merror:rc", "vnacal_new_set_m_error accepted noise vectors before the frequency vector was set"); return; }
+	if (miss) { c.violate("model", "merror:range", strf("vnacal_new_set_m_error accepted noise vectors given at %g..%g for a calibration band %g..%g", vlo, vhi, lo, hi)); return; }
 	s.m_error = mode != 3;
 	c.count(s.m_error ? "probe.merror_on" : "probe.merror_off");
 	return;
@@ -647,9 +693,10 @@ static void run_op(CalWorld &w, const Op &op, const Plan &plan)
 	bool covered = true, clearly_missed = false;
 	for (int pi : s.added_params) {
 	    const ParamSpec &p = w.params[(size_t)pi].spec;
-	    if (p.kind != 2 && !(p.kind == 3 && !p.kf.empty())) continue;	// (an unknown inherits the range of a vector parameter given as its initial guess)
-	    if (p.kf.front() > s.spec.fv.front() || p.kf.back() < s.spec.fv.back()) covered = false;
-	    if (p.kf.front() > s.spec.fv.front() * 1.05 || p.kf.back() < s.spec.fv.back() * 0.95) clearly_missed = true;
+	    double plo, phi;
+	    if (!param_frange(p, plo, phi)) continue;	// (an unknown inherits the range of a vector parameter given as its initial guess)
+	    if (plo > s.spec.fv.front() || phi < s.spec.fv.back()) covered = false;
+	    if (plo > s.spec.fv.front() * 1.05 || phi < s.spec.fv.back() * 0.95) clearly_missed = true;
 	}
 	int rc, e;
 	LIB_RETRY(c, &op, "vnacal_new_set_frequency_vector", e, rc != 0, rc = vnacal_new_set_frequency_vector(s.vnp, s.spec.fv.data()));
@@ -669,13 +716,15 @@ static void run_op(CalWorld &w, const Op &op, const Plan &plan)
 	if (!s.active) return;
 	int P = s.spec.P;
 	StdSpec st;
-	st.kind = (int)(op.I(1) % 4);
+	st.kind = (int)(op.I(1) % 5);
 	st.full = op.I(2) != 0;
 	st.variant = (int)op.I(3);
 	int p1 = (int)op.I(4), p2 = (int)op.I(5);
 	st.ab_scale = op.D(0, 1.0) == 0 ? 1.0 : op.D(0, 1.0);
-	if (st.kind == 0) st.ports = {p1}; else st.ports = {p1, p2};
-	int np = st.kind == 0 ? 1 : st.kind == 1 ? 2 : st.kind == 2 ? 0 : 4;
+	if (st.kind == 0) st.ports = {p1};
+	else if (st.kind == 4) { if (p1 < 1 || p1 > P || ss_rect(s.spec)) return; st.ports.clear(); for (int q = 0; q < P; ++q) st.ports.push_back((p1 - 1 + q) % P + 1); st.variant = 0; }	// all ports, rotated
+	else st.ports = {p1, p2};
+	int np = st.kind == 0 ? 1 : st.kind == 1 ? 2 : st.kind == 2 ? 0 : st.kind == 3 ? 4 : P * P;
 	std::vector<int> handles;
 	std::vector<int> pidx;
 	bool all_live = true, any_unknown = false;
@@ -700,14 +749,15 @@ static void run_op(CalWorld &w, const Op &op, const Plan &plan)
 	    pidx.push_back(pi);
 	}
 	st.params = pidx;
-	bool ports_ok = p1 >= 1 && p1 <= P && (st.kind == 0 || (p2 >= 1 && p2 <= P && p2 != p1));
+	bool ports_ok = p1 >= 1 && p1 <= P && (st.kind == 0 || st.kind == 4 || (p2 >= 1 && p2 <= P && p2 != p1));
 	// frequency coverage of vector parameters (when the calibration frequencies are known)
 	bool covered = true, clearly_missed = false;
 	if (s.fv_set) for (int pi : pidx) {
 	    const ParamSpec &p = w.params[(size_t)pi].spec;
-	    if (p.kind != 2 && !(p.kind == 3 && !p.kf.empty())) continue;	// (an unknown inherits the range of a vector parameter given as its initial guess)
-	    if (p.kf.front() > s.spec.fv.front() || p.kf.back() < s.spec.fv.back()) covered = false;
-	    if (p.kf.front() > s.spec.fv.front() * 1.05 || p.kf.back() < s.spec.fv.back() * 0.95) clearly_missed = true;
+	    double plo, phi;
+	    if (!param_frange(p, plo, phi)) continue;	// (an unknown inherits the range of a vector parameter given as its initial guess)
+	    if (plo > s.spec.fv.front() || phi < s.spec.fv.back()) covered = false;
+	    if (plo > s.spec.fv.front() * 1.05 || phi < s.spec.fv.back() * 0.95) clearly_missed = true;
 	}
 	if (!ports_ok) {
 	    // harness must not index outside its own matrices: clamp the measurement to valid ports
@@ -761,7 +811,14 @@ static void run_op(CalWorld &w, const Op &op, const Plan &plan)
 	    if (!all_live) { c.count("probe.tainted_session_accepts_deleted_handle"); { LibCall lc(c); vnacal_new_free(s.vnp); lc.done(); } s = Session(); return; }
 	    if (clearly_missed) { c.violate("model", "add:range", "a vector standard missing the calibration band by more than 5% was accepted"); return; }
 	    s.spec.stds.push_back(st);
-	    for (size_t q = 0; q < pidx.size(); ++q) { s.added_params.push_back(pidx[q]); s.handle_map.emplace(handles[q], pidx[q]); }
+	    for (size_t q = 0; q < pidx.size(); ++q) {
+		s.added_params.push_back(pidx[q]); s.handle_map.emplace(handles[q], pidx[q]);
+		// (a correlated parameter brings the parameter it is correlated with into the calibration, which then keeps meaning it as well)
+		for (int pi = pidx[q], guard = 0; guard < 64 && w.params[(size_t)pi].spec.corr && w.params[(size_t)pi].spec.corr_other >= 0; ++guard) {
+		    pi = w.params[(size_t)pi].spec.corr_other;
+		    s.handle_map.emplace(w.params[(size_t)pi].handle, pi);
+		}
+	    }
 	    // (the library keeps an already solved calibration until the next successful solve)
 	    c.count(strf("add.kind%d.variant%d.%s", st.kind, st.variant, st.full ? "full" : "abbr"));
 	    if (any_unknown) c.count("probe.unknown_standard");
@@ -770,6 +827,11 @@ static void run_op(CalWorld &w, const Op &op, const Plan &plan)
 	    // clause is decided by the C12 enumeration, where the fault-free outcome is known)
 	    if (sc.fired) { s.tainted = true; c.count("probe.add_failed_by_fault"); if (sc.err != ENOMEM && sc.err != EINVAL && sc.err != EDOM) c.violate("model", "add:errno", strf("add failed under an allocation fault with errno %s", errno_name(sc.err))); return; }
 	    if (all_live && covered && s.m_error && world_class_of(s.spec.type) == W16 && sc.err == EINVAL) { c.count("probe.partial_standard_refused_under_measurement_errors"); return; }	// (vnacal_new(3): with error modelling the 16-term types need every standard to specify the whole S matrix)
+	    // a correlated parameter is registered together with the parameter it is correlated with: if that one has been deleted
+	    // in the meantime (and this calibration has not seen it), the library refuses; not claimed either way
+	    bool corr_orphan = false;
+	    for (int pi : pidx) { const ParamSpec &q = w.params[(size_t)pi].spec; if (q.corr && q.corr_other >= 0 && !w.params[(size_t)q.corr_other].live && !s.handle_map.count(w.params[(size_t)q.corr_other].handle)) corr_orphan = true; }
+	    if (corr_orphan && sc.err == EINVAL) { c.count("probe.correlated_with_deleted_parameter_refused"); return; }
 	    if (all_live && covered) { c.violate("model", "add:rc", strf("valid standard refused: kind %d ports %d,%d full %d variant %d: %s", st.kind, p1, p2, (int)st.full, st.variant, sc.msg.c_str())); return; }
 	    if (sc.err != EINVAL) { c.violate("model", "add:errno", strf("standard refused with errno %s, expected EINVAL", errno_name(sc.err))); return; }
 	    c.count(all_live ? "probe.range_refused" : "probe.deleted_handle_refused");
